@@ -90,8 +90,8 @@ VARIANTS = [
     {"name": "R4 resend_unacked goes through self.send", "file": BC, "expect": "C05.R4",
      "old": "            self._send_prepared_message(msg)\n", "new": "            self.send(msg)\n"},
     {"name": "R4 pop without set_result", "file": BC, "expect": "C05.R4",
-     "old": "            if resend_info:\n                resend_info.completed.set_result(None)\n",
-     "new": "            if resend_info:\n                logging.debug('acked')\n"},
+     "old": "            if resend_info and not resend_info.completed.done():\n                resend_info.completed.set_result(None)\n",
+     "new": "            if resend_info and not resend_info.completed.done():\n                logging.debug('acked')\n"},
     {"name": "R4 PacketAck blocks replace appended acks (seed C05/2)", "expect": "C05.R4", "edits": [
         {"file": BC, "old": "        effective_acks = list(message.acks)\n", "new": "        effective_acks = message.acks\n"},
         {"file": BC, "old": '            effective_acks.extend(x["ID"] for x in message["Packets"])\n',
@@ -106,10 +106,10 @@ VARIANTS = [
     {"name": "R4 RESENT flag not set", "file": BC, "expect": "C05.R4",
      "old": "            msg.send_flags |= PacketFlags.RESENT\n", "new": ""},
     {"name": "R4 exhausted entry still resent", "file": BC, "expect": "C05.R4",
-     "old": '                resend_info.completed.set_exception(TimeoutError("Exceeded resend limit"))\n                continue\n',
-     "new": '                resend_info.completed.set_exception(TimeoutError("Exceeded resend limit"))\n'},
+     "old": '                    resend_info.completed.set_exception(TimeoutError("Exceeded resend limit"))\n                continue\n',
+     "new": '                    resend_info.completed.set_exception(TimeoutError("Exceeded resend limit"))\n'},
     {"name": "R4 give-up without failing the future", "file": BC, "expect": "C05.R4",
-     "old": '                resend_info.completed.set_exception(TimeoutError("Exceeded resend limit"))\n', "new": ""},
+     "old": '                if not resend_info.completed.done():\n                    resend_info.completed.set_exception(TimeoutError("Exceeded resend limit"))\n', "new": ""},
     {"name": "R4 budget never decremented", "file": BC, "expect": "C05.R4",
      "old": "            resend_info.tries_left -= 1\n", "new": ""},
     {"name": "R4 table written from drop_message", "file": PC, "expect": "C05.R4",
@@ -125,8 +125,8 @@ VARIANTS = [
             '            block_ids = [x["ID"] for x in message["Packets"]]\n'
             '            effective_acks = effective_acks + block_ids\n'},
     {"name": "P R4 presence test spelled `is not None`", "file": BC, "expect": "silent",
-     "old": "            if resend_info:\n                resend_info.completed.set_result(None)\n",
-     "new": "            if resend_info is not None:\n                resend_info.completed.set_result(None)\n"},
+     "old": "            if resend_info and not resend_info.completed.done():\n                resend_info.completed.set_result(None)\n",
+     "new": "            if resend_info is not None and not resend_info.completed.done():\n                resend_info.completed.set_result(None)\n"},
     {"name": "P R4 budget test spelled as comparison", "file": BC, "expect": "silent",
      "old": "            if not resend_info.tries_left:\n", "new": "            if resend_info.tries_left <= 0:\n"},
     {"name": "X R4 retry budget off by one", "file": BC, "expect": "miss",
@@ -278,9 +278,11 @@ VARIANTS = [
     # ------------------------------------------------------------------ round 6
     {"name": "R4 give-up completes the future before removing the entry", "file": BC, "expect": "C05.R4",
      "old": "                del self.unacked_reliable[(msg.direction, msg.packet_id)]\n"
-            "                resend_info.completed.set_exception(TimeoutError(\"Exceeded resend limit\"))\n",
+            "                if not resend_info.completed.done():\n"
+            "                    resend_info.completed.set_exception(TimeoutError(\"Exceeded resend limit\"))\n",
      "new": "                gone = (msg.direction, msg.packet_id)\n"
-            "                resend_info.completed.set_exception(TimeoutError(\"Exceeded resend limit\"))\n"
+            "                if not resend_info.completed.done():\n"
+            "                    resend_info.completed.set_exception(TimeoutError(\"Exceeded resend limit\"))\n"
             "                self.unacked_reliable.pop(gone, None)\n"},
     {"name": "P R4 give-up removes through a key local, then completes", "file": BC, "expect": "silent",
      "old": "                del self.unacked_reliable[(msg.direction, msg.packet_id)]\n",
@@ -298,20 +300,24 @@ VARIANTS = [
     # ------------------------------------------------------------------ round 7
     {"name": "P R4 removal + completion shared by one helper", "expect": "silent", "edits": [
         {"file": BC, "old": "            resend_info = self.unacked_reliable.pop((~message.direction, ack), None)\n"
-                            "            if resend_info:\n                resend_info.completed.set_result(None)\n",
+                            "            # The awaiter may have cancelled the future (i.e. through `wait_for()`)\n"
+                            "            if resend_info and not resend_info.completed.done():\n                resend_info.completed.set_result(None)\n",
          "new": "            self._finish((~message.direction, ack))\n"},
         {"file": BC, "old": "                del self.unacked_reliable[(msg.direction, msg.packet_id)]\n"
-                            "                resend_info.completed.set_exception(TimeoutError(\"Exceeded resend limit\"))\n",
+                            "                if not resend_info.completed.done():\n"
+                            "                    resend_info.completed.set_exception(TimeoutError(\"Exceeded resend limit\"))\n",
          "new": "                self._finish((msg.direction, msg.packet_id), TimeoutError(\"Exceeded resend limit\"))\n"},
-        {"file": BC, "old": "    def resend_unacked(self):\n", "new": "    def _finish(self, key, exc=None):\n        info = self.unacked_reliable.pop(key, None)\n        if info is None:\n            return\n        if exc is not None:\n            info.completed.set_exception(exc)\n        else:\n            info.completed.set_result(None)\n\n    def resend_unacked(self):\n"}]},
+        {"file": BC, "old": "    def resend_unacked(self):\n", "new": "    def _finish(self, key, exc=None):\n        info = self.unacked_reliable.pop(key, None)\n        if info is None or info.completed.done():\n            return\n        if exc is not None:\n            info.completed.set_exception(exc)\n        else:\n            info.completed.set_result(None)\n\n    def resend_unacked(self):\n"}]},
     {"name": "R4 shared helper keeps entries whose future was cancelled", "expect": "C05.R4", "edits": [
         {"file": BC, "old": "            resend_info = self.unacked_reliable.pop((~message.direction, ack), None)\n"
-                            "            if resend_info:\n                resend_info.completed.set_result(None)\n",
+                            "            # The awaiter may have cancelled the future (i.e. through `wait_for()`)\n"
+                            "            if resend_info and not resend_info.completed.done():\n                resend_info.completed.set_result(None)\n",
          "new": "            self._finish((~message.direction, ack))\n"},
         {"file": BC, "old": "                del self.unacked_reliable[(msg.direction, msg.packet_id)]\n"
-                            "                resend_info.completed.set_exception(TimeoutError(\"Exceeded resend limit\"))\n",
+                            "                if not resend_info.completed.done():\n"
+                            "                    resend_info.completed.set_exception(TimeoutError(\"Exceeded resend limit\"))\n",
          "new": "                self._finish((msg.direction, msg.packet_id), TimeoutError(\"Exceeded resend limit\"))\n"},
-        {"file": BC, "old": "    def resend_unacked(self):\n", "new": "    def _finish(self, key, exc=None):\n        info = self.unacked_reliable.get(key)\n        if info is None or info.completed.cancelled():\n            return\n        del self.unacked_reliable[key]\n        if exc is not None:\n            info.completed.set_exception(exc)\n        else:\n            info.completed.set_result(None)\n\n    def resend_unacked(self):\n"}]},
+        {"file": BC, "old": "    def resend_unacked(self):\n", "new": "    def _finish(self, key, exc=None):\n        info = self.unacked_reliable.get(key)\n        if info is None or info.completed.done():\n            return\n        del self.unacked_reliable[key]\n        if exc is not None:\n            info.completed.set_exception(exc)\n        else:\n            info.completed.set_result(None)\n\n    def resend_unacked(self):\n"}]},
     {"name": "P R4 per-entry resend work in a helper behind a due test", "expect": "silent", "edits": [
         {"file": BC, "old": "            msg = copy.copy(resend_info.message)\n", "new": "            self._retry(resend_info)\n\n"
                             "    def _retry(self, resend_info):\n        if True:\n            msg = copy.copy(resend_info.message)\n"},
@@ -325,4 +331,45 @@ VARIANTS = [
     {"name": "P R6 walks over a local alias of the deque", "expect": "silent", "edits": [
         {"file": PC, "old": "        for packet_id in self.injections:\n            if new_id < packet_id and new_id not in self.injections:\n",
          "new": "        inj = self.injections\n        for packet_id in inj:\n            if new_id < packet_id and new_id not in inj:\n"}]},
+    # ------------------------------------------------------------------ D32 (fix 4149389)
+    {"name": "R4 ack completes the future without the done() test (D32 reverted, collect_acks)", "file": BC, "expect": "C05.R4",
+     "old": "            if resend_info and not resend_info.completed.done():\n                resend_info.completed.set_result(None)\n",
+     "new": "            if resend_info:\n                resend_info.completed.set_result(None)\n"},
+    {"name": "R4 give-up fails the future without the done() test (D32 reverted, resend_unacked)", "file": BC, "expect": "C05.R4",
+     "old": "                if not resend_info.completed.done():\n                    resend_info.completed.set_exception(TimeoutError(\"Exceeded resend limit\"))\n",
+     "new": "                resend_info.completed.set_exception(TimeoutError(\"Exceeded resend limit\"))\n"},
+    {"name": "R4 completion guarded by cancelled() only", "file": BC, "expect": "C05.R4",
+     "old": "            if resend_info and not resend_info.completed.done():\n                resend_info.completed.set_result(None)\n",
+     "new": "            if resend_info and not resend_info.completed.cancelled():\n                resend_info.completed.set_result(None)\n"},
+    {"name": "P R4 done() test as a guard clause after the removal", "file": BC, "expect": "silent",
+     "old": "            if resend_info and not resend_info.completed.done():\n                resend_info.completed.set_result(None)\n",
+     "new": "            if not resend_info or resend_info.completed.done():\n                continue\n"
+            "            resend_info.completed.set_result(None)\n"},
+    {"name": "R4 done() test moved in front of the removal", "file": BC, "expect": "C05.R4",
+     "old": "                del self.unacked_reliable[(msg.direction, msg.packet_id)]\n                if not resend_info.completed.done():\n",
+     "new": "                if resend_info.completed.done():\n                    continue\n"
+            "                del self.unacked_reliable[(msg.direction, msg.packet_id)]\n                if not resend_info.completed.done():\n"},
+    # ------------------------------------------------------------------ round 8
+    {"name": "R4 resend scan stops at the first entry that is not due", "file": BC, "expect": "C05.R4",
+     "old": "            if dt.datetime.now() - resend_info.last_resent < dt.timedelta(seconds=self.resend_every):\n"
+            "                continue\n",
+     "new": "            if dt.datetime.now() - resend_info.last_resent < dt.timedelta(seconds=self.resend_every):\n"
+            "                break\n"},
+    {"name": "P R4 clock and interval hoisted out of the resend scan", "expect": "silent", "edits": [
+        {"file": BC, "old": "        for resend_info in list(self.unacked_reliable.values()):\n            # Not time to attempt a resend yet\n"
+                            "            if dt.datetime.now() - resend_info.last_resent < dt.timedelta(seconds=self.resend_every):\n",
+         "new": "        if not self.unacked_reliable:\n            return\n        now = dt.datetime.now()\n"
+                "        interval = dt.timedelta(seconds=self.resend_every)\n"
+                "        for resend_info in list(self.unacked_reliable.values()):\n"
+                "            if now - resend_info.last_resent < interval:\n"}]},
+    {"name": "P R9 trackers built by a module-level factory", "expect": "silent", "edits": [
+        {"file": PC, "old": "        self.in_injections = InjectionTracker(0)\n        self.out_injections = InjectionTracker(0)\n",
+         "new": "        self.in_injections = _new_tracker()\n        self.out_injections = _new_tracker()\n"},
+        {"file": PC, "old": "class ProxiedCircuit(Circuit):\n",
+         "new": "def _new_tracker():\n    return InjectionTracker(0)\n\n\nclass ProxiedCircuit(Circuit):\n"}]},
+    {"name": "R9 tracker factory with a small window", "expect": "C05.R9", "edits": [
+        {"file": PC, "old": "        self.in_injections = InjectionTracker(0)\n        self.out_injections = InjectionTracker(0)\n",
+         "new": "        self.in_injections = _new_tracker()\n        self.out_injections = _new_tracker()\n"},
+        {"file": PC, "old": "class ProxiedCircuit(Circuit):\n",
+         "new": "def _new_tracker():\n    return InjectionTracker(0, maxlen=512)\n\n\nclass ProxiedCircuit(Circuit):\n"}]},
 ]
